@@ -32,7 +32,7 @@ scratch worktree - nothing from /verif (waves 1-8: one property each, later wave
 descriptions of the changes already tried and a per-property focus; waves 9-10: the repository's
 `fix:` commits, with the task to undo one of them for a sub-case only; wave 11: all properties and one
 code area, "make it look like an optimisation"; waves 12, 14, 15: all properties and one theme, code area or
-narrow topic, two-site changes and changes behind rare but legal states; wave 13: one property each once more).  Each was confirmed by `tools/intake.sh` in a fresh
+narrow topic, two-site changes and changes behind rare but legal states; wave 13: one property each once more; waves 16-18: all properties and one theme each - validator counts not of the form 3F+1, both extensions together, the ledger moving under the library, time-outs per phase, unusual callback behaviour, single acts of a Byzantine validator, the reference payload code, the timer interface, state that lives across heights, time arithmetic, order of operations inside one call, silent nodes, the content of a node's own messages).  Each was confirmed by `tools/intake.sh` in a fresh
 scratch copy (existing suite passes with it, the demo fails with it and passes without it) and
 evaluated by `tools/trymut.sh` (quick tier, 15-90 s, 8 workers, scratch copy; `/repo` and
 `/verif/evidence` untouched); `tools/regress_seeded.sh` re-evaluates all of them after changes.  %d changes, %d caught now;
